@@ -43,7 +43,20 @@ def _corrupt(t: dict) -> bool:
     return False
 
 
+def model_control(ctx: Ctx) -> None:
+    """With the deviation DevDoubleRelease (redun before its fix: commit) TLC must find HeldOK violated."""
+    from ..tlc import expect_violation
+
+    progs = [p for p in schedlab.curated_programs() if p["ns"] == "cur9"]
+    devs = schedlab.DEVS.replace("DevDoubleRelease = FALSE", "DevDoubleRelease = TRUE")
+    res = schedlab.model_check(ctx, progs, dev=False, invariants=["HeldOK"], hang_report=False, workers=4,
+                               devs=devs)
+    expect_violation(res, "HeldOK", "Scheduler.tla with DevDoubleRelease (model-level control)")
+    ctx.add_tlc(res)
+
+
 def run(ctx: Ctx) -> None:
+    model_control(ctx)
     ctx.assume("no job demands more units than a limit (premise shared with C09)",
                "single scheduler thread; executor completions arrive as queue events in any order")
     schedlab.suite(ctx, ON, n_random_progs=ctx.pick(4, 30), n_sim=ctx.pick(80, 1500),
